@@ -103,3 +103,12 @@ Definition option_f_name_ok (s : bytes) : bool :=
   | n :: sl :: c :: rest => beqb n x31 && beqb sl x2f && nonblank_faim c && forallb faim_char rest
   | _ => false
   end.
+
+(* the 60 FAIM tag markers *)
+Definition faim_markers : list bytes :=
+  map bs ["{1100}"; "{1110}"; "{1120}"; "{1130}"; "{1500}"; "{1510}"; "{1520}"; "{2000}"; "{3100}"; "{3320}";
+          "{3400}"; "{3500}"; "{3600}"; "{3610}"; "{3620}"; "{3700}"; "{3710}"; "{3720}"; "{4000}"; "{4100}";
+          "{4200}"; "{4320}"; "{4400}"; "{5000}"; "{5010}"; "{5100}"; "{5200}"; "{5400}"; "{6000}"; "{6100}";
+          "{6110}"; "{6200}"; "{6210}"; "{6300}"; "{6310}"; "{6400}"; "{6410}"; "{6420}"; "{6500}"; "{7033}";
+          "{7050}"; "{7052}"; "{7056}"; "{7057}"; "{7059}"; "{7070}"; "{7072}"; "{8200}"; "{8250}"; "{8300}";
+          "{8350}"; "{8400}"; "{8450}"; "{8500}"; "{8550}"; "{8600}"; "{8650}"; "{8700}"; "{8750}"; "{9000}"]%string.
